@@ -153,6 +153,121 @@ theorem rowE_succ_interior (p q : K) (m i : ℕ) (hi : i < m + 1) (f : ℕ → K
   have h1 : i + 1 < m + 2 := by omega
   simp [h1]
 
+theorem rowE_add (p q : K) (m i : ℕ) (f g : ℕ → K) :
+    rowE p q m i (fun j => f j + g j) = rowE p q m i f + rowE p q m i g := rowExp_add _ _ _ _ _
+
+theorem rowE_smul (p q : K) (m i : ℕ) (c : K) (f : ℕ → K) :
+    rowE p q m i (fun j => c * f j) = c * rowE p q m i f := rowExp_smul _ _ _ _ _
+
+end
+
+section
+variable {K : Type} [Field K] [CharZero K]
+
+/-- **Generating function of a row**: row `i` of the `(m+2)`-state matrix is the law of a sum of
+    `m+1-i` Bernoulli(`1-p`) and `i` Bernoulli(`q`) variables. -/
+theorem rowE_genfun (p q x : K) (m i : ℕ) (hi : i < m + 2) :
+    rowE p q m i (fun j => x ^ j) = (p + (1 - p) * x) ^ (m + 1 - i) * (1 - q + q * x) ^ i := by
+  have hf : (fun j : ℕ => x ^ (j + 1)) = fun j => x * x ^ j := by funext j; rw [pow_succ']
+  induction m generalizing i with
+  | zero =>
+    rw [rowE_zero p q i hi]
+    have : i = 0 ∨ i = 1 := by omega
+    rcases this with rfl | rfl <;> simp [rouwBaseFn]
+  | succ m ih =>
+    rcases Nat.eq_zero_or_pos i with rfl | hpos
+    · rw [rowE_succ_first, hf, rowE_smul, ih 0 (by omega)]
+      simp only [Nat.sub_zero, pow_zero, mul_one]
+      ring
+    · obtain ⟨i, rfl⟩ : ∃ i', i = i' + 1 := ⟨i - 1, by omega⟩
+      by_cases hlast : i = m + 1
+      · subst hlast
+        rw [rowE_succ_last, hf, rowE_smul, ih (m + 1) (by omega)]
+        simp only [Nat.sub_self, pow_zero, one_mul]
+        ring
+      · have hi' : i < m + 1 := by omega
+        obtain ⟨d, rfl⟩ : ∃ d, m = i + d := ⟨m - i, by omega⟩
+        rw [rowE_succ_interior p q (i + d) i hi', hf, rowE_smul, rowE_smul,
+          ih (i + 1) (by omega), ih i (by omega)]
+        have e1 : i + d + 1 - (i + 1) = d := by omega
+        have e2 : i + d + 1 - i = d + 1 := by omega
+        have e3 : i + d + 1 + 1 - (i + 1) = d + 1 := by omega
+        rw [e1, e2, e3]
+        field_simp
+        ring
+
+/-- **Row sums are one** (any `p`, `q`). -/
+theorem rowE_one (p q : K) (m i : ℕ) (hi : i < m + 2) : rowE p q m i (fun _ => 1) = 1 := by
+  have h := rowE_genfun p q 1 m i hi
+  simpa using h
+
+theorem rowE_const (p q c : K) (m i : ℕ) (hi : i < m + 2) : rowE p q m i (fun _ => c) = c := by
+  have h := rowE_smul p q m i c (fun _ => 1)
+  simp only [mul_one] at h
+  rw [h, rowE_one p q m i hi, mul_one]
+
+/-- **Conditional mean of the index.** -/
+theorem rowE_id (p q : K) (m i : ℕ) (hi : i < m + 2) :
+    rowE p q m i (fun j => (j : K)) = ((m : K) + 1) * (1 - p) + (i : K) * (p + q - 1) := by
+  have hf : (fun j : ℕ => ((j + 1 : ℕ) : K)) = fun j : ℕ => (j : K) + 1 := by
+    funext j; push_cast; ring
+  have hs : ∀ m i, i < m + 2 → rowE p q m i (fun j => ((j + 1 : ℕ) : K))
+      = rowE p q m i (fun j => (j : K)) + 1 := by
+    intro m i hi
+    rw [hf, rowE_add, rowE_const p q 1 m i hi]
+  induction m generalizing i with
+  | zero =>
+    rw [rowE_zero p q i hi]
+    have : i = 0 ∨ i = 1 := by omega
+    rcases this with rfl | rfl
+    · simp [rouwBaseFn]
+    · simp [rouwBaseFn]; ring
+  | succ m ih =>
+    rcases Nat.eq_zero_or_pos i with rfl | hpos
+    · rw [rowE_succ_first, hs m 0 (by omega), ih 0 (by omega)]
+      push_cast; ring
+    · obtain ⟨i, rfl⟩ : ∃ i', i = i' + 1 := ⟨i - 1, by omega⟩
+      by_cases hlast : i = m + 1
+      · subst hlast
+        rw [rowE_succ_last, hs m (m + 1) (by omega), ih (m + 1) (by omega)]
+        push_cast; ring
+      · have hi' : i < m + 1 := by omega
+        rw [rowE_succ_interior p q m i hi', hs m (i + 1) (by omega), hs m i (by omega),
+          ih (i + 1) (by omega), ih i (by omega)]
+        push_cast; field_simp; ring
+
+/-- **Second moment of the index** = variance + mean², with
+    mean `(m+1-i)(1-p) + i q` and variance `(m+1-i) p (1-p) + i q (1-q)`. -/
+theorem rowE_sq (p q : K) (m i : ℕ) (hi : i < m + 2) :
+    rowE p q m i (fun j => (j : K) ^ 2) =
+      (((m : K) + 1 - i) * (p * (1 - p)) + (i : K) * (q * (1 - q)))
+        + (((m : K) + 1 - i) * (1 - p) + (i : K) * q) ^ 2 := by
+  have hf : (fun j : ℕ => (((j + 1 : ℕ) : K)) ^ 2) = fun j : ℕ => (j : K) ^ 2 + (2 * (j : K) + 1) := by
+    funext j; push_cast; ring
+  have hs : ∀ m i, i < m + 2 → rowE p q m i (fun j => (((j + 1 : ℕ) : K)) ^ 2)
+      = rowE p q m i (fun j => (j : K) ^ 2)
+        + (2 * (((m : K) + 1) * (1 - p) + (i : K) * (p + q - 1)) + 1) := by
+    intro m i hi
+    rw [hf, rowE_add, rowE_add, rowE_smul, rowE_const p q 1 m i hi, rowE_id p q m i hi]
+  induction m generalizing i with
+  | zero =>
+    rw [rowE_zero p q i hi]
+    have : i = 0 ∨ i = 1 := by omega
+    rcases this with rfl | rfl <;> simp [rouwBaseFn] <;> ring
+  | succ m ih =>
+    rcases Nat.eq_zero_or_pos i with rfl | hpos
+    · rw [rowE_succ_first, hs m 0 (by omega), ih 0 (by omega)]
+      push_cast; ring
+    · obtain ⟨i, rfl⟩ : ∃ i', i = i' + 1 := ⟨i - 1, by omega⟩
+      by_cases hlast : i = m + 1
+      · subst hlast
+        rw [rowE_succ_last, hs m (m + 1) (by omega), ih (m + 1) (by omega)]
+        push_cast; ring
+      · have hi' : i < m + 1 := by omega
+        rw [rowE_succ_interior p q m i hi', hs m (i + 1) (by omega), hs m i (by omega),
+          ih (i + 1) (by omega), ih i (by omega)]
+        push_cast; field_simp; ring
+
 end
 
 end QE.C13
